@@ -1,13 +1,13 @@
 package sim
 
 import (
-	"verif/simrt"
 	"encoding/json"
 	"fmt"
 	"os"
 	"strconv"
 	"testing"
 	"time"
+	"verif/simrt"
 )
 
 func envInt(k string, d int) int {
